@@ -136,6 +136,57 @@ var dagCheck = &core.Check{Name: "c02/dag", Quick: 2500, Thorough: 200000, Fn: f
 				return fmt.Errorf("cell built in memory: Level()=%d want 0", mem.Level())
 			}
 			c.Class("built in memory")
+			// cells built in memory can grow: after a descendant got more data the hash of every cell above
+			// it is the hash of the tree as it is now (asked directly, through the Hasher used before and
+			// through a new one)
+			warm := boc.NewHasher()
+			if _, err := warm.Hash(mem); err != nil {
+				return fmt.Errorf("cell built in memory: Hasher.Hash: %v", err)
+			}
+			var path []int
+			cur, rcur := mem, root
+			for len(rcur.Refs) > 0 && len(path) < 6 {
+				k := c.Intn("grow.ref", len(rcur.Refs))
+				path = append(path, k)
+				cur, rcur = cur.Refs()[k], rcur.Refs[k]
+			}
+			if len(path) > 0 && rcur.BitLen < 1000 {
+				extra := c.Bool("grow.bit")
+				if err := cur.WriteBit(extra); err == nil {
+					// the same change in the reference model: rebuild the cells along the path
+					var rebuild func(x *ref.RCell, p []int) *ref.RCell
+					rebuild = func(x *ref.RCell, p []int) *ref.RCell {
+						if len(p) == 0 {
+							return ref.NewRCell(append(x.Bits().Clone(), extra), false, x.Refs...)
+						}
+						kids := append([]*ref.RCell{}, x.Refs...)
+						kids[p[0]] = rebuild(x.Refs[p[0]], p[1:])
+						return ref.NewRCell(x.Bits(), false, kids...)
+					}
+					grown := rebuild(root, path)
+					// with shared pointers the grown cell may occur at other places too: image the tree instead
+					img, ierr := gen.FromTongo(mem, 100000)
+					if ierr == nil {
+						grown = img
+					}
+					want := grown.ReprHash()
+					for name, f := range map[string]func() ([]byte, error){
+						"Hash()":                 mem.Hash,
+						"the Hasher used before": func() ([]byte, error) { return warm.Hash(mem) },
+						"a new Hasher":           func() ([]byte, error) { return boc.NewHasher().Hash(mem) },
+					} {
+						if h, err := f(); err != nil || !bytes.Equal(h, want) {
+							if name == "the Hasher used before" {
+								// a caching hasher is documented to remember cells by pointer: not judged
+								c.Class("warm hasher keeps the old hash of a grown tree (not judged)")
+								continue
+							}
+							return fmt.Errorf("cell built in memory, after one bit was appended to the descendant at path %v: %s = %x,%v want %x", path, name, h, err, want)
+						}
+					}
+					c.Class("descendant grew after the first hash")
+				}
+			}
 		} else if !errors.Is(err, gen.ErrBudget) {
 			return err
 		}
@@ -548,5 +599,5 @@ func TestReal(t *testing.T) {
 }
 
 func TestReplay(t *testing.T) {
-	core.Replay(t, dagCheck, lengthCheck, depthCheck, levelDepthCheck, proverCheck, realCheck)
+	core.Replay(t, dagCheck, lengthCheck, depthCheck, levelDepthCheck, proverCheck, realCheck, concurrentCheck)
 }
